@@ -176,3 +176,49 @@ def r3(cx):
     it = sites(cx, cb, "LevelManifest::iter")
     cps = [c for c in cb.calls if c.primary in ("std::fs::hard_link", "std::fs::copy")]
     cx.check(bool(cps) and all(cb.in_cycle(c.bb) for c in cps), "every table in the manifest is linked/copied", "copy-not-all", cb.where())
+
+
+@rule("C14", "C14.R5", "restore replaces whole directories: nothing of the discarded timeline is kept by name")
+def r5(cx):
+    """File names (table ids, segment numbers, value-log file ids) identify content only within one timeline; restore
+    rewinds the counters, so the same name is re-issued for different content.  Necessary conditions: before the
+    checkpoint's files are put in place every rewound directory is removed as a whole (remove_dir_all on the accessor's
+    path, conditional only on its existence), and the copy routine never skips a destination that already exists."""
+    f = cx.f
+    b = f.body("DatabaseCheckpoint::clear_current_state")
+    rm = [c for c in b.calls if c.bb in b.live and c.names & {"std::fs::remove_dir_all"}]
+    need = ["sstable_dir", "wal_dir", "manifest_dir"]
+    if f.may_reach(b.id, "Options::vlog_dir"):
+        need.append("vlog_dir")
+    have = {}
+    for c in rm:
+        o = origin_of_operand(b, c.args[0], through_calls="all")
+        for d in ("sstable_dir", "wal_dir", "manifest_dir", "vlog_dir", "versioned_index_dir"):
+            if o.from_call("Options::%s" % d):
+                have.setdefault(d, []).append(c)
+    for d in ("sstable_dir", "wal_dir", "manifest_dir", "vlog_dir"):
+        cx.check(d in have, "restore wipes %s as a whole" % d, "restore-dir-not-wiped|%s" % d, b.where(),
+                 "clear_current_state no longer removes %s entirely: files of the discarded timeline stay in place under names the restored manifest re-uses, "
+                 "and reads silently return the discarded timeline's data" % d)
+    # selective deletion inside a rewound directory is the same mistake
+    for c in b.calls:
+        if c.bb in b.live and c.names & {"std::fs::remove_file"}:
+            cx.bad("restore-selective-delete|%s" % c.primary, "clear_current_state deletes individual files (keeps the others by name) instead of replacing the directory", c.where())
+    rb = f.body("DatabaseCheckpoint::restore_from_checkpoint")
+    cl = sites(cx, rb, "DatabaseCheckpoint::clear_current_state")
+    cps = [c for c in rb.calls if c.bb in rb.live and f.call_may_reach(c, {"std::fs::hard_link", "std::fs::copy"})]
+    cx.floor("copy steps in DatabaseCheckpoint::restore_from_checkpoint", len(cps), 2)
+    dom(cx, rb, cl, cps, "the current state is cleared before the checkpoint's files are copied in", key="restore-copy-before-clear")
+    # the copy routine overwrites: no `exists()` test of the destination gates the copy
+    for name in ("DatabaseCheckpoint::copy_directory_sync", "checkpoint::copy_dir_all"):
+        if not f.has_body(name):
+            continue
+        cb = f.body(name)
+        dparam = [i for i in range(1, cb.argc + 1) if cb.local_name(i) in ("dest", "dst", "destination")]
+        ex = [c for c in cb.calls if c.bb in cb.live and c.primary.split("::")[-1] in ("exists", "try_exists", "is_file", "is_dir")]
+        for c in ex:
+            o = origin_of_operand(cb, c.args[0], through_calls="all")
+            on_dest = any(p[0] in dparam for p in o.params) and any(x.primary.split("::")[-1] == "join" for x in o.calls)
+            cx.check(not on_dest, "`%s`: the copy is not gated by a test of the destination entry" % name, "restore-copy-skips-existing|%s" % name, c.where(),
+                     "`%s` tests whether the destination entry exists before copying: a file of the discarded timeline with the same name is kept instead of being replaced" % name)
+        cx.ok("`%s` inspected for destination tests (%d path tests)" % (name, len(ex)), cb.where())
